@@ -94,10 +94,24 @@ def gen_tables():
     return rc == 0, out.strip(), sha.hexdigest()[:16]
 
 
+COQ_DIRS = ["Gen", "Model", "Spec", "Proofs", "Properties"]
+
+
 def coq_makefile():
-    mk = os.path.join(COQ, "Makefile")
+    """_CoqProject is generated: every .v file under coq/{Gen,Model,Spec,Proofs,Properties} is part of the
+    development (coqdep orders them).  Extract/*.v are compiled separately into build/."""
+    files = []
+    for d in COQ_DIRS:
+        dd = os.path.join(COQ, d)
+        if os.path.isdir(dd):
+            files += sorted("%s/%s" % (d, f) for f in os.listdir(dd) if f.endswith(".v"))
+    txt = "-R . Saphyr\n-arg -w -arg -notation-overridden,-deprecated-hint-without-locality,-ambiguous-paths\n" + "\n".join(files) + "\n"
     proj = os.path.join(COQ, "_CoqProject")
-    if not os.path.exists(mk) or os.path.getmtime(mk) < os.path.getmtime(proj):
+    old = open(proj).read() if os.path.exists(proj) else None
+    mk = os.path.join(COQ, "Makefile")
+    if old != txt or not os.path.exists(mk):
+        with open(proj, "w") as f:
+            f.write(txt)
         sh("coq_makefile -f _CoqProject -o Makefile", cwd=COQ, check=True)
 
 
@@ -178,45 +192,51 @@ def coqchk(pid, timeout=1500):
     return rc == 0, out[-3000:]
 
 
-def build_model():
-    """Extract the model to OCaml and build the driver (only when something changed)."""
-    os.makedirs(OCAML_BUILD, exist_ok=True)
-    ok, out = coq_build(["Model/Drivers.vo"])
-    if not ok:
-        return False, out
-    stamp = os.path.join(OCAML_BUILD, ".stamp")
-    srcs = [os.path.join(COQ, "Extract", "Extract.v"), os.path.join(VERIF, "ocaml", "driver.ml")]
+def build_model(tag=""):
+    """Extract the model to OCaml and build the driver (only when something changed).
+    tag "" : coq/Extract/Extract.v + ocaml/driver.ml -> build/ocaml/mx
+    tag T  : coq/Extract/Extract<T>.v + ocaml/driver_<t>.ml -> build/ocaml_<t>/mx   (self-contained units)"""
+    low = tag.lower()
+    odir = OCAML_BUILD if not tag else os.path.join(BUILD, "ocaml_" + low)
+    os.makedirs(odir, exist_ok=True)
+    ext_v = os.path.join(COQ, "Extract", "Extract%s.v" % tag)
+    drv = os.path.join(VERIF, "ocaml", "driver%s.ml" % ("_" + low if tag else ""))
+    exe = os.path.join(odir, "mx")
+    stamp = os.path.join(odir, ".stamp")
     deps = []
-    for d in ("Model", "Spec", "Gen", "Oracle"):
+    for d in COQ_DIRS:
         dd = os.path.join(COQ, d)
         if os.path.isdir(dd):
             deps += [os.path.join(dd, f) for f in os.listdir(dd) if f.endswith(".v")]
-    newest = max(os.path.getmtime(p) for p in srcs + deps)
-    if os.path.exists(stamp) and os.path.exists(MX) and os.path.getmtime(stamp) >= newest:
+    newest = max(os.path.getmtime(p) for p in [ext_v, drv] + deps)
+    if os.path.exists(stamp) and os.path.exists(exe) and os.path.getmtime(stamp) >= newest:
         return True, "up to date"
-    # Extract.v may need more than Drivers.vo
-    ok, out = coq_build(extract_deps())
+    ok, out = coq_build(extract_deps(ext_v))
     if not ok:
         return False, out
-    rc, out = sh(["coqc", "-R", COQ, "Saphyr", os.path.join(COQ, "Extract", "Extract.v")], cwd=OCAML_BUILD, timeout=900)
+    rc, out = sh(["coqc", "-R", COQ, "Saphyr", ext_v], cwd=odir, timeout=900)
     if rc != 0:
         return False, out
-    sh(["cp", os.path.join(VERIF, "ocaml", "driver.ml"), OCAML_BUILD], check=True)
-    rc, out = sh("ocamlfind ocamlopt -O3 -w -a model.mli model.ml driver.ml -o mx", cwd=OCAML_BUILD, timeout=900)
+    sh(["cp", drv, os.path.join(odir, "driver.ml")], check=True)
+    rc, out = sh("ocamlfind ocamlopt -O3 -w -a model.mli model.ml driver.ml -o mx", cwd=odir, timeout=900)
     if rc != 0:
         return False, out
     open(stamp, "w").write(str(time.time()))
     return True, "rebuilt"
 
 
-def extract_deps():
-    src = open(os.path.join(COQ, "Extract", "Extract.v")).read()
+def mx_path(tag=""):
+    return MX if not tag else os.path.join(BUILD, "ocaml_" + tag.lower(), "mx")
+
+
+def extract_deps(ext_v):
+    src = open(ext_v).read()
     mods = []
     for m in re.finditer(r"Require Import ([^.]+)\.", src):
         mods += m.group(1).split()
     targets = []
     for mod in mods:
-        for d in ("Model", "Spec", "Gen", "Oracle", "Proofs"):
+        for d in COQ_DIRS:
             if os.path.exists(os.path.join(COQ, d, mod + ".v")):
                 targets.append("%s/%s.vo" % (d, mod))
     return targets
@@ -292,8 +312,13 @@ def run_hx(args, lines, timeout=1200, release=False):
     return _run_shards(HX_REL if release else HX, args, lines, timeout)
 
 
-def run_mx(args, lines, timeout=1200):
-    return _run_shards(MX, args, lines, timeout)
+def run_mx(args, lines, timeout=1200, tag=""):
+    return _run_shards(mx_path(tag), args, lines, timeout)
+
+
+def run_bin(name, args, lines, timeout=1200, release=False):
+    """run another harness binary (harness/src/bin/<name>.rs) with the same line protocol"""
+    return _run_shards(os.path.join(CARGO_TARGET, "release" if release else "debug", name), args, lines, timeout)
 
 
 # ------------------------------------------------------------------------------------------------
@@ -429,7 +454,7 @@ def write_replay(pid, obj):
     return os.path.relpath(path, VERIF)
 
 
-def prepare(pid, res, need_release=False):
+def prepare(pid, res, need_release=False, model_tags=("",)):
     """Common front part of every check: translator, proof obligations, audit, model + harness build.
     Returns the proof-status dict.  Build failures of the *machinery* (not of /repo) abort with exit 2;
     a /repo that no longer compiles is reported as a tie break."""
@@ -446,12 +471,12 @@ def prepare(pid, res, need_release=False):
         if bad:
             res.add_tie_break("forbidden vernacular in the development", lines=bad[:20])
             proof["discharged"] = 0
-        ok, out = build_model()
-        if not ok:
-            res.add_tie_break("the executable model no longer builds", error=out[-2000:])
-            res.model_ok = False
-        else:
-            res.model_ok = True
+        res.model_ok = True
+        for tag in model_tags:
+            ok, out = build_model(tag)
+            if not ok:
+                res.add_tie_break("the executable model no longer builds (unit %r)" % tag, error=out[-2000:])
+                res.model_ok = False
         ok, out = build_harness()
         if ok and need_release:
             ok, out = build_harness(release=True)
